@@ -120,7 +120,7 @@ def exec_lines(kind, chunk, env):
     rn = RUNNERS.get(kind)
     if rn is None:
         p = subprocess.run(["bash", "-c", "ulimit -v 8000000; exec %s run %s" % (CORR, kind)], input=chunk,
-                           capture_output=True, text=True, env=env)
+                           capture_output=True, text=True, errors="replace", env=env)
         return p.returncode, p.stdout, p.stderr
     os.makedirs(WORK, exist_ok=True)
     tag = "%s-%d-%d" % (kind, os.getpid(), abs(hash(chunk)) % 10**9)
@@ -133,8 +133,8 @@ def exec_lines(kind, chunk, env):
     if rn.get("race"):
         cmd.append("-race")
     cmd += ["-timeout", rn.get("timeout", "20m"), rn["pkg"]]
-    p = subprocess.run(cmd, cwd=REPO, env=e, capture_output=True, text=True)
-    out = open(fout).read() if os.path.exists(fout) else ""
+    p = subprocess.run(cmd, cwd=REPO, env=e, capture_output=True, text=True, errors="replace")
+    out = open(fout, errors="replace").read() if os.path.exists(fout) else ""
     for f in (fin, fout):
         if os.path.exists(f):
             os.remove(f)
@@ -189,7 +189,7 @@ def run_go(kind, lines, watchdog_ms=None, extra_env=None):
 
 
 def run_model(lines):
-    p = subprocess.run([MODEL], input="\n".join(l.split("\t")[0] for l in lines) + "\n", capture_output=True, text=True)
+    p = subprocess.run([MODEL], input="\n".join(l.split("\t")[0] for l in lines) + "\n", capture_output=True, text=True, errors="replace")
     outs = p.stdout.split("\n")
     if outs and outs[-1] == "":
         outs.pop()
